@@ -114,6 +114,9 @@ STATEMENTS: list[tuple[str, str]] = (
         ("create-tag-noop", "CREATE TAG cost_center COMMENT = 'cost_center tag'"),
         ("cluster-by-noop", "ALTER TABLE SRC CLUSTER BY (K)"),
         ("nop-regex", "CALL SOME_PROCEDURE(1, 2)"),
+        # appended later (earlier indices are referred to by committed replay cases)
+        ("backslash-literals", "SELECT 'C:\\\\temp' AS P, 'x\\\\' AS Q, K FROM SRC WHERE V <> 'dir\\\\' ORDER BY K"),
+        ("unaliased-expressions", "SELECT DATEDIFF(DAY, C_DATE, '2021-01-01'::DATE), C_INT + 1, UPPER(C_STR), 'a\\\\b' FROM TT ORDER BY C_INT"),
     ]
 )
 IN_TX = [("commit-in-tx", "COMMIT"), ("rollback-in-tx", "ROLLBACK"), ("insert-in-tx", "INSERT INTO SRC VALUES (8, 'eight')"), ("select-in-tx", "SELECT K FROM SRC ORDER BY K")]
